@@ -387,3 +387,46 @@ Definition py_suppress {S} (e : exn) (body : out S) (before : S) : out S :=
   | Ex e' => if exn_eqb e e' then Nx before else Ex e'
   | o => o
   end.
+
+(* ---------- dict.get(k), next(it, default) (merge keys, has_content) ---------- *)
+(* d.get(k): the value or None; no default factory is consulted *)
+Definition py_dict_get (d k : pv) : res pv :=
+  match d with
+  | VDict _ l => Ok (match assoc k l with Some v => v | None => VNone end)
+  | _ => Err AttributeError
+  end.
+Definition py_next_default (it dflt : pv) : res pv :=
+  l <- py_iter it ;; match l with x :: _ => Ok x | [] => Ok dflt end.
+
+(* ---------- isinstance(x, str), dict.get(k, d), str.split(sep), element.iterfind, suppressed loop (gather_Pr) ---------- *)
+Definition py_is_str (v : pv) : res pv := Ok (VBool match v with VStr _ => true | _ => false end).
+Definition py_dict_get2 (d k dflt : pv) : res pv :=
+  match d with
+  | VDict _ l => Ok (match assoc k l with Some v => v | None => dflt end)
+  | _ => Err AttributeError
+  end.
+(* s.split(sep) for a one-character separator *)
+Definition py_split_on (s sep : pv) : res pv :=
+  match s, sep with
+  | VStr s, VStr [c] => Ok (VList (map VStr (split_chr c s)))
+  | VStr _, VStr _ => Err ValueError      (* other separators do not occur in the translated code *)
+  | _, _ => Err AttributeError
+  end.
+(* element.iterfind("{uri}local"): the children whose tag is that Clark name, in document order
+   (an lxml element as an object: field "tag", children in field "__iter__") *)
+Definition k_tag_field : str := [116;97;103]%N.
+Definition py_iterfind (el q : pv) : res pv :=
+  kids <- py_iter el ;;
+  Ok (VList (filter (fun k => match k with
+                              | VObj _ fs => match field_get k_tag_field fs with
+                                             | Some t => pv_eqb t q
+                                             | None => false
+                                             end
+                              | _ => false
+                              end) kids)).
+(* with suppress(E): for x in ITER: BODY   where only ITER can raise E *)
+Definition py_for_suppressed {S} (it : res pv) (e : exn) (body : pv -> S -> out S) (s : S) : out S :=
+  match it with
+  | Ok v => py_for v body s
+  | Err e' => if exn_eqb e e' then Nx s else Ex e'
+  end.
